@@ -15,8 +15,10 @@ RULE = ("(1) L-BFGS: seeded random strictly convex quadratics 1/2 x'Mx - b'x, M 
         "iterate of the real LBFGS::optimize is an event.  A run is non-trivial when it has the full budget and made >= 3 "
         "accepted steps on a problem with condition number > 1.  (2) LogisticRegression::fit+predict on seeded training sets, "
         "n 6..60 (thorough 100), p 1..6, k 2..4 classes with arbitrary label values, features of scale 1/8..100 with shifts, "
-        "layouts from identical to separable, alpha in {0, 1/64 .. 10}, preceded by the two fixed training sets of the known "
-        "findings; one event per fit.  A fit is non-trivial when its "
+        "layouts from identical to separable and exactly balanced, alpha in {0, 1/64 .. 10}; labels half-integers, adjacent floats "
+        "(one ulp apart) or scaled by 2^+-40/200; DenseMatrix / ndarray / nalgebra back ends; inherent or api-trait fit/predict; "
+        "four ways of building the parameters; preceded by the fixed training sets of the known findings, a ladder of single "
+        "predict calls on 255..700 rows (2 and >= 3 classes) and training sets of 63..513 rows; one event per fit.  A fit is non-trivial when its "
         "scores fit the fixed-point budget, n >= 2(p+1) and alpha > 0.  distinct = distinct inputs (digest of the input fields)")
 
 LB_TRACE = ("linear/LBFGSTrace.tla", "linear/LBFGSTrace.cfg")
@@ -41,8 +43,8 @@ def lg_key(e, clause):
     xmax = max(abs(v) for r in e["X"] for v in r) / float(1 << e["xS"])
     xb = "xmax>=128" if xmax >= 128 else "xmax<128"
     key = "logit %s: %s %s %s" % (clause, kb, ab, xb)
-    if a == 0:
-        key += " layout=%s" % e["layout"]
+    if a == 0:      # the label family (adjacent / rescaled floats) is not part of the class
+        key += " layout=%s" % e["layout"].split("+")[0]
     return key
 
 
@@ -157,13 +159,24 @@ def run(ctx):
     lg = vlib.read_ndjson(flg)
     v2, bads2 = ctx.tlc_trace(LG_TRACE[0], LG_TRACE[1], flg, timeout=2400,
                               must_hit=("Fit", "Labels", "Argmax", "ArgmaxDecidedRows", "Stationary", "StationarySharp",
-                                        "Objective", "ObjectiveSharp", "Alpha0"))
+                                        "Objective", "ObjectiveSharp", "Alpha0", "LongBatch", "LongTraining"))
+    fam = {}
+    for e in lg:
+        for tag in (e.get("backend", "dense"), e.get("entry", "inherent"), e.get("build", "alpha"),
+                    "labels-" + (e["layout"].split("+labels-")[1] if "+labels-" in e["layout"] else "plain")):
+            fam[tag] = fam.get(tag, 0) + 1
+    for tag in ("dense", "ndarray", "nalgebra", "inherent", "trait", "labels-adjacent", "labels-rescaled"):
+        if not fam.get(tag):
+            raise vlib.ToolError("vacuous run: no logistic fit of family %s" % tag)
+    ctx.extra["logistic_families"] = fam
     for (l, runid, ev, clause) in bads2:
         e = lg[l - 1]
         if clause == "HarnessInput":
             raise vlib.ToolError("the generator emitted an event outside its own input contract (line %d)" % l)
-        ctx.report(lg_key(e, clause), "%s fails on a logistic fit (run %d: n=%d p=%d k=%d alpha=%d/64 layout=%s)"
-                   % (clause, runid, e["n"], e["p"], e["k"], e["alphaNum"], e["layout"]), [e])
+        ctx.report(lg_key(e, clause), "%s fails on a logistic fit (run %d: n=%d p=%d k=%d alpha=%d/64 layout=%s, %d query rows, "
+                   "%s back end, %s methods, labels %s)"
+                   % (clause, runid, e["n"], e["p"], e["k"], e["alphaNum"], e["layout"], len(e["Q"]),
+                      e.get("backend"), e.get("entry"), e.get("labelStr")), [e])
     # ---- the binding is real
     try:
         selftest_binding(ctx, lb, lg, set(b[1] for b in bads), set(b[1] for b in bads2))
